@@ -98,3 +98,36 @@ Proof.
     + destruct (ends_with_free (m ++ e2 ++ jx_destroy n n) n 0) as [m' Hm]. exists m'. cbn [app]. f_equal. rewrite <- Hm. rewrite <- !app_assoc. reflexivity.
     + destruct (ends_with_free (m ++ e2) n 0) as [m' Hm]. exists m'. cbn [app]. f_equal. rewrite <- Hm. rewrite <- !app_assoc. reflexivity.
 Qed.
+
+(* ---- C11: the life cycle of an object whose constructors do not throw ---- *)
+(* every element of the member array (and of the array of the clone / of the object moved into another allocator) is
+   constructed exactly once and destroyed exactly once, no other element event exists, every node obtained is given back,
+   and the events are bracketed by the first node's allocation and a release *)
+Theorem jx_success_lifecycle n post i :
+  let ev := jx_case n None post in
+  jcount (is_jc i) ev = (if in_range 1 (jx_total n post) i then 1 else 0) /\
+  jcount (is_jd i) ev = jcount (is_jc i) ev /\
+  jcount is_ja ev = jcount is_jf ev /\
+  jcount is_jt ev = 0 /\
+  exists mid, ev = JxAlloc :: mid ++ [JxFree].
+Proof.
+  cbv zeta. destruct (jx_case_balanced n None post i) as (H1 & H2 & H3 & H4). cbv zeta in *.
+  unfold jx_built in H1. repeat split; try assumption. apply jx_case_brackets.
+Qed.
+
+(* the order: the elements are destroyed first to last while the node is still there; the node goes back afterwards; a
+   clone is built after the original is complete, and (reset in reverse order of creation) is gone before the original *)
+Theorem jx_success_shape n :
+  jx_case n None PNone = [JxAlloc] ++ map JxC (seq 1 n) ++ map JxD (seq 1 n) ++ [JxFree] /\
+  jx_case n None PCopy = [JxAlloc] ++ map JxC (seq 1 n) ++ [JxAlloc] ++ map JxC (seq (S n) n) ++ map JxD (seq (S n) n) ++ [JxFree]
+                          ++ map JxD (seq 1 n) ++ [JxFree].
+Proof.
+  unfold jx_case, jx_object, jx_destroy. split; cbn [fst snd]; rewrite <- ?app_assoc; reflexivity.
+Qed.
+
+(* in a successful life cycle no element is touched after its node has been given back: behind the last release there is
+   nothing, and between the two releases of the copy flow only elements of the object that still has its node *)
+Theorem jx_nothing_after_last_free n post : exists before, jx_case n None post = before ++ [JxFree].
+Proof.
+  destruct (jx_case_brackets n None post) as (mid & E). exists (JxAlloc :: mid). rewrite E. reflexivity.
+Qed.
